@@ -1046,6 +1046,44 @@ func runB6(p *an.Prog, r *an.Result) {
 		r.Bad("-", "no loop consumes the sentinels", token.NoPos, "no function compares an error cause with the break/continue sentinels")
 		return
 	}
+	// first: what the loop does with each sentinel, by carrying "the body's error is this sentinel" through the
+	// code after the body call (sentinel.go); conclusive for both, it decides the rule
+	{
+		ob, okb := sentinelOutcomes(p, gb, gc, 1)
+		oc, okc := sentinelOutcomes(p, gb, gc, 2)
+		if okb && okc {
+			lname := an.FuncName(loopFn)
+			r.Counts["sentinel tests"] += 2
+			_, bAgain := ob["again"]
+			_, bE := ob["return-e"]
+			_, bNil := ob["return-nil"]
+			_, bPanic := ob["panic"]
+			switch {
+			case bE:
+				r.Bad(lname, "body error cause == "+gb.Name()+": sentinel returned", ob["return-e"], "on "+gb.Name()+" the loop returns the body's error: the sentinel escapes to the enclosing loop or to the caller")
+			case bAgain:
+				r.Bad(lname, "body error cause == "+gb.Name()+": break re-enters the loop", ob["again"], "break must leave the loop")
+			case !bNil || bPanic:
+				r.Bad(lname, "body error cause == "+gb.Name()+": loop not left", token.NoPos, "break must leave the loop and report success")
+			default:
+				r.OK(lname, "body error cause == "+gb.Name()+" leaves the Go loop", ob["return-nil"], "carried through the code after the body call: every path leaves the loop and returns success (or the error of a later write)")
+			}
+			_, cAgain := oc["again"]
+			_, cE := oc["return-e"]
+			_, cNil := oc["return-nil"]
+			_, cPanic := oc["panic"]
+			switch {
+			case cE:
+				r.Bad(lname, "body error cause == "+gc.Name()+": sentinel returned", oc["return-e"], "on "+gc.Name()+" the loop returns the body's error: the sentinel escapes to the enclosing loop or to the caller")
+			case !cAgain || cNil || cPanic:
+				r.Bad(lname, "body error cause == "+gc.Name()+": loop not continued", oc["return-nil"], "continue must go on with the next iteration")
+			default:
+				r.OK(lname, "body error cause == "+gc.Name()+" continues the Go loop", oc["again"], "carried through the code after the body call: every path gets back to the head of the loop (or returns the error of a later write)")
+			}
+			r.Floor("sentinel tests", 2)
+			return
+		}
+	}
 	name := an.FuncName(loopFn)
 	// the body call whose error is inspected
 	bodyCalls := callsNamed(loopFn, "(render.Context).RenderChildren")
@@ -1435,6 +1473,32 @@ func runB8(p *an.Prog, r *an.Result) {
 		r.Bad("(render.rendererContext).InnerString", "not found", token.NoPos, "anchor not resolved")
 	} else {
 		rc := callsNamed(is, "(render.rendererContext).RenderChildren")
+		if len(rc) == 0 {
+			// the body renderer handed, as a method value, to a helper that renders into a buffer of its own
+			an.EachInstr(is, func(in ssa.Instruction) {
+				site, ok := in.(*ssa.Call)
+				if !ok {
+					return
+				}
+				h := site.Call.StaticCallee()
+				if h == nil || !p.InModule(h) || h.Blocks == nil || len(h.Params) != len(site.Call.Args) {
+					return
+				}
+				for k, a := range site.Call.Args {
+					mc, ok := a.(*ssa.MakeClosure)
+					if !ok || an.FuncName(unwrapBound(mc.Fn.(*ssa.Function))) != "(render.rendererContext).RenderChildren" {
+						continue
+					}
+					// in the helper: the one call of that parameter
+					an.EachInstr(h, func(in2 ssa.Instruction) {
+						if c2, ok := in2.(*ssa.Call); ok && c2.Call.Value == ssa.Value(h.Params[k]) {
+							rc = append(rc, c2)
+							is = h
+						}
+					})
+				}
+			})
+		}
 		if len(rc) != 1 {
 			r.Bad(an.FuncName(is), "RenderChildren calls", an.FuncPos(is), fmt.Sprintf("expected one, found %d", len(rc)))
 		} else {
@@ -2457,6 +2521,19 @@ func filledFromBindings(p *an.Prog, fn *ssa.Function) bool {
 		case *ssa.Call:
 			if cn := an.CallName(&x.Call); strings.HasPrefix(cn, "maps.Copy") && len(x.Call.Args) == 2 && strings.HasSuffix(describe(p, x.Call.Args[1]), "ctx.bindings") {
 				filled = true
+			}
+			// a copying helper of the module: it ranges over the parameter that is handed the live bindings
+			if h := x.Call.StaticCallee(); h != nil && p.InModule(h) && h.Blocks != nil && len(h.Params) == len(x.Call.Args) {
+				for k, a := range x.Call.Args {
+					if !strings.HasSuffix(describe(p, a), "ctx.bindings") {
+						continue
+					}
+					an.EachInstr(h, func(in2 ssa.Instruction) {
+						if rg, ok := in2.(*ssa.Range); ok && rg.X == ssa.Value(h.Params[k]) {
+							filled = true
+						}
+					})
+				}
 			}
 		}
 	})
